@@ -156,6 +156,9 @@ def cases(tier, seed):
         for tup in itertools.product(range(len(EXPR_TOKENS)), repeat=k):
             for place in ("header", "toml", "dot-license"):
                 yield {"k": "expr", "toks": list(tup), "place": place}
+    for n in (240, 248, 250, 254, 255):
+        for kind in ("text", "binary"):
+            yield {"k": "longname", "n": n, "kind": kind}
     for state in SIBLING_STATES:
         for target in ("binary", "force-dot-license", "fallback-dot-license"):
             yield {"k": "sibling", "state": state, "target": target}
@@ -333,6 +336,40 @@ def ev_expr(c) -> R:
     r.evals = 4
     r.outcome = "expr"
     r.tags.append("expr")
+    return r
+
+
+def ev_longname(c) -> R:
+    """A covered file whose name is so long that NAME.license is no possible file name (255 bytes is the limit of most file systems)."""
+    r = R()
+    ext = ".py" if c["kind"] == "text" else ".png"
+    name = "n" * (c["n"] - len(ext)) + ext
+    for cmd in ("lint-json", "spdx", "lint-file", "annotate", "annotate-r"):
+        root = fresh_dir("c16")
+        rec = dict(BASE)
+        rec["REUSE.toml"] = toml_with({})
+        rec["src/" + name] = (H + "x = 1\n") if c["kind"] == "text" else {"hex": "89504e470d0a1a0a0000000d49484452"}
+        try:
+            materialise(root, rec)
+        except OSError as e:
+            raise HarnessError(f"cannot create a {c['n']}-byte name here: {e}")
+        base = ["--root", str(root), "--no-multiprocessing"]
+        if cmd == "lint-file":
+            out = run_cli(base + ["lint-file", str(root / "src" / name), str(root / "src/a.py")])
+        elif cmd == "annotate":
+            out = run_cli(base + ["annotate", "--copyright", "Kim", "--year", "2020", str(root / "src" / name), str(root / "src/b.c")])
+        elif cmd == "annotate-r":
+            out = run_cli(base + ["annotate", "--copyright", "Kim", "--year", "2020", "--recursive", "--skip-unrecognised", str(root / "src")])
+        else:
+            out = run_command(cmd, root)
+        judge(r, out, cmd, f"covered {c['kind']} file with a {c['n']}-byte name", f"longname|{c['kind']}|{cmd}")
+        if cmd == "lint-json" and out.exc is None and c["kind"] == "text" and out.stdout.startswith("{"):
+            data = json.loads(out.stdout)
+            if data["non_compliant"]["read_errors"]:
+                r.violation(f"longname|readable-file-reported-as-read-error|n={c['n']}", f"a readable, fully tagged file with a {c['n']}-byte name is listed under read errors")
+    r.evals = 5
+    r.outcome = "longname"
+    r.tags.append("longname")
     return r
 
 
@@ -532,7 +569,7 @@ def ev_io(c) -> R:
     return r
 
 
-_EV = {"expr": ev_expr, "sibling": ev_sibling, "vcsmeta": ev_vcsmeta, "template": ev_template, "glob": ev_glob, "toml": ev_toml, "broken-toml": ev_broken_toml, "dep5": ev_dep5, "bytes": ev_bytes, "licenses": ev_licenses, "io": ev_io}
+_EV = {"longname": ev_longname, "expr": ev_expr, "sibling": ev_sibling, "vcsmeta": ev_vcsmeta, "template": ev_template, "glob": ev_glob, "toml": ev_toml, "broken-toml": ev_broken_toml, "dep5": ev_dep5, "bytes": ev_bytes, "licenses": ev_licenses, "io": ev_io}
 
 
 def evaluate(c) -> R:
